@@ -114,7 +114,9 @@ G = ['~id:z~ $[*][ @zz = 1  no() ]', '~id:a~ $[*][ @v = symv()  @d.k = symw()  g
      # a member whose identity contains a period: results references name it in full
      '~id:c.v2~ $[*][ gt(line_number(), 0) ]', '~id:c~ $[*][ no() ]']
 RECORDS2 = [r for r in csv.reader(io.StringIO(DATA2))]
-R = ['~id:r~ $[1][ @x = $g.variables.v  @y = $g.variables.d.k  @z = $g.headers.h3.a ]']
+# a group of one member: the lines its most recent run collected are all the lines the group has (down to exactly one)
+G1 = ['~id:o~ $[*][ gt(line_number(), symt()) ]']
+R = ['~id:r~ $[1][ @x = $g.variables.v  @y = $g.variables.d.k  @z = $g.headers.h3.a  @z1 = $g1.headers.h1 ]']
 R2 = ['~id:q~ $[*][ yes() ]']
 
 
@@ -124,7 +126,7 @@ R2 = ['~id:q~ $[*][ yes() ]']
     pre=["{LO} <= v1 <= {HI} and {LO} <= w1 <= {HI} and {LO} <= v2 <= {HI} and {LO} <= w2 <= {HI}"],
     post="_ == ''",
     bound="group g (4 members, one with a period in its identity; the second run's match threshold per shard, so the most recent run collects 5, 3, 2 or 1 lines; the first collects nothing, the second collects a ragged 5-record file) run once or twice (symbolic) leaving symbolic ints in a plain and "
-    "a tracking-keyed variable; then a group that reads $g.variables.v, $g.variables.d.k and $g.headers.h3.a, a replay of '$g.results.:first.a', and groups run (serially and breadth-first, "
+    "a tracking-keyed variable; then a group that reads $g.variables.v, $g.variables.d.k, $g.headers.h3.a and $g1.headers.h1 (g1: one member, so the group as a whole has collected 5 down to exactly 1 line), a replay of '$g.results.:first.a', and groups run (serially and breadth-first, "
     "before and after the second run of g, on the same instance) on the file name '$g.results.:last.a': always the most recent run's data.csv",
     outside="references to groups of several members; ':first'; 3 runs",
     encodes=["csvpath/matching/productions/reference.py:Reference._variable_value/_header_value/_get_value_from_results/get_results",
@@ -149,7 +151,7 @@ def references(twice: bool, v1: int, w1: int, v2: int, w2: int, t2: int = 1) -> 
     saved = _cps.datetime
     with NoTracing():
         _cps.datetime = _Clock
-        root, cs = kitpaths.env({"g": G, "r": R, "r2": R2}, policy="raise, collect, print", data=DATA2)
+        root, cs = kitpaths.env({"g": G, "g1": G1, "r": R, "r2": R2}, policy="raise, collect, print", data=DATA2)
     try:
         return _references(cs, root, twice, v1, w1, v2, w2, t2)
     finally:
@@ -161,6 +163,7 @@ def _references(cs, root, twice, v1, w1, v2, w2, t2) -> str:
     problems = []
     kit.HOLD.update(symv=v1, symw=w1, symt=-1)
     cs.collect_paths(filename="data", pathsname="g")
+    cs.collect_paths(filename="data", pathsname="g1")
     lastv, lastw, lastt = v1, w1, -1
     # replay the first run once, so that a later ':last' must be resolved afresh
     cs.collect_paths(filename="$g.results.:last.a", pathsname="r2")
@@ -170,8 +173,12 @@ def _references(cs, root, twice, v1, w1, v2, w2, t2) -> str:
     if twice:
         kit.HOLD.update(symv=v2, symw=w2, symt=t2)
         cs.collect_paths(filename="data", pathsname="g")
+        cs.collect_paths(filename="data", pathsname="g1")
         lastv, lastw, lastt = v2, w2, t2
-    cs.fast_forward_paths(filename="data", pathsname="r")
+    try:
+        cs.fast_forward_paths(filename="data", pathsname="r")
+    except Exception as e:
+        problems.append(f"evaluating the references raised {type(e).__name__}")
     rr = cs.results_manager.get_named_results("r")[0].csvpath.variables
     if rr.get("x") != lastv:
         problems.append(f"$g.variables.v gave {rr.get('x')}, the last run left {lastv}")
@@ -180,6 +187,9 @@ def _references(cs, root, twice, v1, w1, v2, w2, t2) -> str:
     want_z = [r[2] for i, r in enumerate(RECORDS2) if i > lastt and len(r) > 2]
     if rr.get("z") != want_z:
         problems.append(f"$g.headers.h3 gave {rr.get('z')}, expected {want_z}")
+    want_z1 = [r[0] for i, r in enumerate(RECORDS2) if i > lastt]
+    if rr.get("z1") != want_z1:
+        problems.append(f"$g1.headers.h1 gave {rr.get('z1')}, the group's only member collected {want_z1}")
     want_lines = [r for i, r in enumerate(RECORDS2) if i > lastt]
     got_serial = None
     cs.collect_paths(filename="$g.results.:first.a", pathsname="r2")
